@@ -289,6 +289,51 @@ func Walk(n yang.Node, st *yang.Statement, parent yang.Node, top bool, nodes *in
 		return "parent-link", at + ": ParentNode() is not the enclosing node"
 	}
 	kids, exts := children(n)
+	// the accessors say what the fields say (Kind() is not judged: a statement kept as a
+	// plain value reports the kind "string" by design)
+	if ax := n.Exts(); len(ax) != len(exts) {
+		return "exts-accessor", fmt.Sprintf("%s: Exts() returns %d statements, the extension list holds %d", at, len(ax), len(exts))
+	} else {
+		for i := range ax {
+			if ax[i] != exts[i] {
+				return "exts-accessor", fmt.Sprintf("%s: Exts()[%d] is not the statement in the extension list", at, i)
+			}
+		}
+	}
+	if gr, ok := n.(interface{ Groupings() []*yang.Grouping }); ok {
+		var want []yang.Node
+		for _, k := range kids {
+			if k.tag == "grouping" {
+				want = append(want, k.node)
+			}
+		}
+		got := gr.Groupings()
+		if len(got) != len(want) {
+			return "groupings-accessor", fmt.Sprintf("%s: Groupings() returns %d nodes, the field holds %d", at, len(got), len(want))
+		}
+		for i := range got {
+			if yang.Node(got[i]) != want[i] {
+				return "groupings-accessor", fmt.Sprintf("%s: Groupings()[%d] is not the node in the field", at, i)
+			}
+		}
+	}
+	if tr, ok := n.(interface{ Typedefs() []*yang.Typedef }); ok {
+		var want []yang.Node
+		for _, k := range kids {
+			if k.tag == "typedef" {
+				want = append(want, k.node)
+			}
+		}
+		got := tr.Typedefs()
+		if len(got) != len(want) {
+			return "typedefs-accessor", fmt.Sprintf("%s: Typedefs() returns %d nodes, the field holds %d", at, len(got), len(want))
+		}
+		for i := range got {
+			if yang.Node(got[i]) != want[i] {
+				return "typedefs-accessor", fmt.Sprintf("%s: Typedefs()[%d] is not the node in the field", at, i)
+			}
+		}
+	}
 	sub := map[*yang.Statement]int{}
 	for i, ss := range st.SubStatements() {
 		sub[ss] = i
